@@ -276,7 +276,8 @@ def main():
             continue
         dst = os.path.join(out_root, key)
         os.makedirs(dst, exist_ok=True)
-        shutil.copy(os.path.join(src, "patch%s.diff" % k), os.path.join(dst, "patch.diff"))
+        if not any(f.startswith("patch.orig-base-") for f in os.listdir(dst)):  # a rebased patch is kept
+            shutil.copy(os.path.join(src, "patch%s.diff" % k), os.path.join(dst, "patch.diff"))
         for f in os.listdir(src):
             if f.startswith("demo%s" % k) and os.path.isfile(os.path.join(src, f)):
                 shutil.copy(os.path.join(src, f), os.path.join(dst, f))
